@@ -194,6 +194,16 @@ def edit_member(data: bytes, edit: list) -> bytes:
     k = edit[0]
     if k == "trunc":
         return data[: edit[1] % (len(data) + 1)]
+    if k == "dupobj":
+        # the extent holding one embedded object (with the record header in front of it) was written twice: a second copy follows the data
+        objs = object_offsets(data)
+        if not objs:
+            return data
+        i = edit[1] % len(objs)
+        start = max(0, objs[i] - edit[2])
+        nxt = [o for o in objs if o > objs[i]]
+        end = max(start + 1, nxt[0] - edit[2]) if nxt else min(len(data), start + 400_000)
+        return data + data[start:end]
     if k == "zerotail":
         # the member keeps its recorded length but its tail was never written: from a point inside it (biased to just inside
         # an embedded object) everything reads back as zeros
@@ -308,7 +318,9 @@ def gen_edit(rng, data: bytes) -> list:
         if k == "num_attr":
             return ["num_attr", rng.randrange(1 << 20), rng.choice(BIG + [2, 3, 100, 5000, 1_048_576])]
         return ["del_attr", rng.randrange(1 << 20)]
-    k = rng.choice(["trunc", "flip", "flip", "u16", "u32", "empty", "zerotail"])
+    k = rng.choice(["trunc", "flip", "flip", "u16", "u32", "empty", "zerotail", "dupobj"])
+    if k == "dupobj":
+        return ["dupobj", rng.randrange(1 << 20), rng.choice([25, 25, 41, 8, 0])]
     if k == "zerotail":
         return ["zerotail", rng.randrange(1 << 30), rng.choice([-1, 2, 4, 6, 20, 100, 600])]
     if k == "trunc":
